@@ -129,6 +129,7 @@ THEOREMS_ROTTIE = ["RotTie." + t for t in "rotForward_is_model eps64_is_model".s
 THEOREMS_ROOTTIE = ["RootTie." + t for t in "rho1Backward_is_model rho2Backward_is_model rho1Step_is_model rho2Step_is_model trips rho1Forward_is_model rho2Forward_is_model".split()]
 THEOREMS_C04B = ["C04b." + t for t in "mix_sub_self norm_mix_sub_self mix_lipschitz residual_bound fixed_point_unique mix_fixedPoint_eq stopped_mixing_bound two_solvers_agree tighter_is_closer".split()]
 THEOREMS_C16C = ["C16c." + t for t in "ritz_exact_of_invariant zero_residuals_miss_a_lower_root".split()]
+THEOREMS_CONSTTIE = ["ConstTie." + t for t in "overlap_cutoff_beyond_c06_range overlap_cutoff_inside_c19_probe_range".split()]
 THEOREMS_GATESTIE = ["GatesTie." + t for t in "gateData_is_isDue gateCkpt_is_isDue gateVec_is_isDue gateXyz_is_isDue gateScreen_is_isDue gateNa_is_isDue naLabel_is_step".split()]
 THEOREMS_C05C = ["C05c." + t for t in "same_all_eq packBatch_rowwise packBatch_row_independent coarse_shortcut_witness coarse_first_row_ok".split()]
 THEOREMS_C17C = ["C17c." + t for t in "gap_depends_on_own_row gaps_fst position_gather_witness position_gather_invisible_on_prefix".split()]
